@@ -254,8 +254,61 @@ def mk_pulse(inp, p):
 REFUSALS = (ValueError, RuntimeError, TypeError, NotImplementedError, IndexError, KeyError)
 
 
+KW_MODE = [False]  # when set, run_op passes every argument BY KEYWORD (the stored calls then hold kwargs instead of args)
+
+
+def run_op_kw(inp, seq, op):
+    n = op[0]
+    if n == "declare":
+        kw = dict(name=op[1], channel_id=op[2])
+        if len(op) > 3 and op[3] is not None:
+            kw["initial_target"] = op[3]
+        return seq.declare_channel(**kw)
+    if n == "add":
+        return seq.add(pulse=mk_pulse(inp, op[2]), channel=op[1], **({"protocol": op[3]} if len(op) > 3 else {}))
+    if n == "delay":
+        return seq.delay(duration=val(inp, op[2]), channel=op[1], **({"at_rest": op[3]} if len(op) > 3 else {}))
+    if n == "target":
+        return seq.target(qubits=op[2], channel=op[1])
+    if n == "target_index":
+        return seq.target_index(qubits=val(inp, op[2]), channel=op[1])
+    if n == "phase_shift" and not op[2]:
+        return seq.phase_shift(phi=val(inp, op[1]), **({"basis": op[3]} if len(op) > 3 else {}))
+    if n == "measure":
+        return seq.measure(**({"basis": op[1]} if len(op) > 1 else {}))
+    if n == "enable_eom":
+        kw = {k: val(inp, v) for k, v in (dict(op[5]) if len(op) > 5 else {}).items()}
+        if len(op) > 4 and op[4] is not None:
+            kw["optimal_detuning_off"] = val(inp, op[4])
+        return seq.enable_eom_mode(channel=op[1], amp_on=val(inp, op[2]), detuning_on=val(inp, op[3]), **kw)
+    if n == "modify_eom":
+        kw = {k: val(inp, v) for k, v in (dict(op[5]) if len(op) > 5 else {}).items()}
+        if len(op) > 4 and op[4] is not None:
+            kw["optimal_detuning_off"] = val(inp, op[4])
+        return seq.modify_eom_setpoint(channel=op[1], amp_on=val(inp, op[2]), detuning_on=val(inp, op[3]), **kw)
+    if n == "disable_eom":
+        return seq.disable_eom_mode(channel=op[1], **(dict(op[2]) if len(op) > 2 else {}))
+    if n == "add_eom":
+        kw = {k: val(inp, v) for k, v in (dict(op[5]) if len(op) > 5 else {}).items()}
+        return seq.add_eom_pulse(channel=op[1], duration=val(inp, op[2]), phase=val(inp, op[3]), **kw)
+    if n == "config_slm":
+        return seq.config_slm_mask(qubits=op[1], **({"dmm_id": op[2]} if len(op) > 2 else {}))
+    if n == "config_dmap":
+        reg = seq.get_register()
+        dm = reg.define_detuning_map({q: val(inp, w) for q, w in op[1].items()})
+        return seq.config_detuning_map(detuning_map=dm, dmm_id=op[2])
+    if n == "add_dmm":
+        return seq.add_dmm_detuning(waveform=mk_waveform(inp, op[2]), dmm_name=op[1], **({"protocol": op[3]} if len(op) > 3 else {}))
+    if n == "set_mag":
+        bx, by, bz = [val(inp, x) for x in op[1]]
+        return seq.set_magnetic_field(bx=bx, by=by, bz=bz)
+    return None  # (no keyword form: variadic arguments)
+
+
 def run_op(inp, seq, op):
     """Execute one op descriptor on a Sequence; returns the value (if any)."""
+    if KW_MODE[0] and (op[0] not in ("align", "phase_shift_index") and not (op[0] == "phase_shift" and op[2])):
+        return run_op_kw(inp, seq, op)
     n = op[0]
     if n == "declare":
         kw = {}
